@@ -272,6 +272,13 @@ Definition missing_check (st : pa_state) (hasNLRI : bool) : option err :=
     else pa_me st
   else pa_me st.
 
+(* attribute length and the bytes after the (3- or 4-octet) attribute header; None = header overruns *)
+Definition attr_header (flags : N) (r : bytes) : option (N * bytes) :=
+  if flag_extlen flags then
+    match r with l1 :: l0 :: r' => Some (get16 l1 l0, r') | _ => None end
+  else
+    match r with l0 :: r' => Some (l0, r') | _ => None end.
+
 (* decodePathAttrs: result = (calls made, next script index, returned error) *)
 Fixpoint path_attrs_loop (fuel : nat) (sc : script) (b : bytes) (hasNLRI : bool) (st : pa_state)
   : res unit (pa_state * option err) :=
@@ -287,12 +294,7 @@ Fixpoint path_attrs_loop (fuel : nat) (sc : script) (b : bytes) (hasNLRI : bool)
           let overrun :=
             let st' := mkPa (pa_calls st) (join2 (pa_me st) (Some (total_attr_len_err attrType))) (pa_seen st) (pa_k st) in
             Ok (st', missing_check st' hasNLRI) in
-          let hdr : option (N * bytes) :=   (* attrLen, bytes after the header *)
-            if flag_extlen flags then
-              match r with l1 :: l0 :: r' => Some (get16 l1 l0, r') | _ => None end
-            else
-              match r with l0 :: r' => Some (l0, r') | _ => None end in
-          match hdr with
+          match attr_header flags r with
           | None => overrun
           | Some (attrLen, r') =>
               if blen r' <? attrLen then overrun else
